@@ -236,6 +236,11 @@ def _gen_get_properties_func(clz: type[ASTNode], props: Mapping[Field, FieldType
             body += f"{_IND*2}yield self.origin, _fld_{f.name}\n"
             return
 
+        if not f.compare and not f.init:
+            body += f"{_IND}if not skip_non_compare and not skip_non_init:\n"
+            body += f"{_IND*2}yield self.{f.name}, _fld_{f.name}\n"
+            return
+
         if not f.compare:
             body += f"{_IND}if not skip_non_compare:\n"
             body += f"{_IND*2}yield self.{f.name}, _fld_{f.name}\n"
